@@ -8,9 +8,11 @@ replay exit); out-of-scope seeds (meta status) are expected to pass."""
 import os, sys, json, glob, re, subprocess, shutil
 sys.path.insert(0, os.path.dirname(__file__))
 import automutate as am
-pat = [a for a in sys.argv[1:] if not a.startswith('--')]
+args = sys.argv[1:]
 threads = '16'
-if '--threads' in sys.argv: threads = sys.argv[sys.argv.index('--threads') + 1]
+if '--threads' in args:
+    i = args.index('--threads'); threads = args[i + 1]; del args[i:i + 2]
+pat = [a for a in args if not a.startswith('--')]
 am.SCRATCH = '/tmp/sr'
 os.makedirs(am.SCRATCH, exist_ok=True)
 d = am.setup_slot(0)
